@@ -5,6 +5,7 @@ import (
 	"flag"
 	"go/ast"
 	"go/types"
+	"strconv"
 	"strings"
 
 	"github.com/lopolopen/shoot/internal/shoot"
@@ -45,7 +46,28 @@ func (g *Generator) qualifier(pkg *types.Package) string {
 	if pkg.Path() == g.Pkg().PkgPath {
 		return ""
 	}
+	//the generated file copies the imports of the type's file: a package imported under another name is
+	//known by that name there
+	if g.data != nil {
+		if alias, ok := g.data.importAlias[pkg.Path()]; ok {
+			return alias
+		}
+	}
 	return pkg.Name()
+}
+
+// importAliases maps import paths to the names they are imported under, where the file gives one
+func importAliases(imports []*ast.ImportSpec) map[string]string {
+	aliases := make(map[string]string)
+	for _, imp := range imports {
+		if imp.Name == nil || imp.Path == nil || imp.Name.Name == "_" || imp.Name.Name == "." {
+			continue
+		}
+		if path, err := strconv.Unquote(imp.Path.Value); err == nil {
+			aliases[path] = imp.Name.Name
+		}
+	}
+	return aliases
 }
 
 func (g *Generator) ParseFlags() {
